@@ -324,8 +324,13 @@ type Peer struct {
 	// scCount is the number of subchannels that this peer is added to.
 	scCount uint32
 
+	// newConnLock restricts new connection creation attempts to one goroutine.
+	// It is a semaphore (buffered channel of size 1) rather than a sync.Mutex so
+	// that a caller queued behind another caller's connection attempt can give
+	// up when its own context ends.
+	newConnLock chan struct{}
+
 	// connections are mutable, and are protected by the mutex.
-	newConnLock         sync.Mutex
 	inboundConnections  []*Connection
 	outboundConnections []*Connection
 	chosenCount         atomic.Uint64
@@ -346,6 +351,7 @@ func newPeer(channel Connectable, hostPort string, onStatusChanged func(*Peer), 
 		hostPort:            hostPort,
 		onStatusChanged:     onStatusChanged,
 		onClosedConnRemoved: onClosedConnRemoved,
+		newConnLock:         make(chan struct{}, 1),
 	}
 }
 
@@ -405,9 +411,12 @@ func (p *Peer) GetConnection(ctx context.Context) (*Connection, error) {
 		return activeConn, nil
 	}
 
-	// Lock here to restrict new connection creation attempts to one goroutine
-	p.newConnLock.Lock()
-	defer p.newConnLock.Unlock()
+	// Lock here to restrict new connection creation attempts to one goroutine.
+	// Waiting for another goroutine's attempt counts against ctx.
+	if err := p.lockNewConn(ctx); err != nil {
+		return nil, err
+	}
+	defer p.unlockNewConn()
 
 	// Check active connections again in case someone else got ahead of us.
 	if activeConn, ok := p.getActiveConn(); ok {
@@ -418,20 +427,26 @@ func (p *Peer) GetConnection(ctx context.Context) (*Connection, error) {
 	return p.Connect(ctx)
 }
 
+// lockNewConn acquires newConnLock, or returns the context's error if the
+// context ends while another goroutine holds the lock.
+func (p *Peer) lockNewConn(ctx context.Context) error {
+	select {
+	case p.newConnLock <- struct{}{}:
+		return nil
+	case <-ctx.Done():
+		return GetContextError(ctx.Err())
+	}
+}
+
+func (p *Peer) unlockNewConn() {
+	<-p.newConnLock
+}
+
 // getConnectionRelay gets a connection, and uses the given timeout to lazily
 // create a context if a new connection is required.
 func (p *Peer) getConnectionRelay(callTimeout, relayMaxConnTimeout time.Duration) (*Connection, error) {
 	if conn, ok := p.getActiveConn(); ok {
 		return conn, nil
-	}
-
-	// Lock here to restrict new connection creation attempts to one goroutine
-	p.newConnLock.Lock()
-	defer p.newConnLock.Unlock()
-
-	// Check active connections again in case someone else got ahead of us.
-	if activeConn, ok := p.getActiveConn(); ok {
-		return activeConn, nil
 	}
 
 	// Use the lower timeout value of the call timeout and the relay connection timeout.
@@ -446,6 +461,18 @@ func (p *Peer) getConnectionRelay(callTimeout, relayMaxConnTimeout time.Duration
 	// and don't try to send Hyperbahn traffic on this connection.
 	ctx, cancel := NewContextBuilder(timeout).HideListeningOnOutbound().Build()
 	defer cancel()
+
+	// Lock here to restrict new connection creation attempts to one goroutine.
+	// Waiting for another goroutine's attempt counts against the timeout.
+	if err := p.lockNewConn(ctx); err != nil {
+		return nil, err
+	}
+	defer p.unlockNewConn()
+
+	// Check active connections again in case someone else got ahead of us.
+	if activeConn, ok := p.getActiveConn(); ok {
+		return activeConn, nil
+	}
 
 	return p.Connect(ctx)
 }
